@@ -478,8 +478,8 @@ fn check_test(t: &Test, snaps: &BTreeMap<String, SnapMap>, tolerant: bool, job_c
             // (the terminal's foreground process group is the business of the
             // shell that controls jobs: judged for its own subshells only)
             || key == "ttyfg" && (!job_control || lazy_tty)
-            || key == "jobs" && t.stops
-            || (key == "jobs" || key == "lastasync") && t.kind == Kind::Async
+            || (key == "jobs" || key == "ownedjobs") && t.stops
+            || (key == "jobs" || key == "ownedjobs" || key == "lastasync") && t.kind == Kind::Async
             || key == cs_var && matches!(t.kind, Kind::Cs | Kind::CsTrap | Kind::CsSig)
     };
     let mut parents = vec![("C", c)];
@@ -536,7 +536,7 @@ fn check_test(t: &Test, snaps: &BTreeMap<String, SnapMap>, tolerant: bool, job_c
                 // (a writer killed from outside cannot put the mode back; the
                 // terminal is the business of the shell that controls jobs)
                 let d = diff_with(p, q, &|key| {
-                    matches!(key, "status" | "jobs" | "lastasync" | "ttyfg") || tolerant && key.starts_with("fdnb:")
+                    matches!(key, "status" | "jobs" | "ownedjobs" | "lastasync" | "ttyfg") || tolerant && key.starts_with("fdnb:")
                 });
                 if !d.is_empty() {
                     return Some((
@@ -591,7 +591,7 @@ fn check_test(t: &Test, snaps: &BTreeMap<String, SnapMap>, tolerant: bool, job_c
         let stoppers_open = interactive;
         let skip = |key: &str| -> bool {
             // (a foreground job of a job-control shell has the terminal)
-            if key == "stack" || key == "jobs" || key == "ttyfg" {
+            if key == "stack" || key == "jobs" || key == "ownedjobs" || key == "ttyfg" {
                 return true;
             }
             if stoppers_open && matches!(key, "disp:120" | "disp:121" | "disp:122" | "trap:S120" | "trap:S121" | "trap:S122") {
@@ -629,6 +629,18 @@ fn check_test(t: &Test, snaps: &BTreeMap<String, SnapMap>, tolerant: bool, job_c
                     "{:?} subshell {k}: on entry ({label}{k}) the subshell does not see a copy of the parent's state (expected from B{k} -> observed):\n  {}",
                     t.kind,
                     d.join("\n  ")
+                ),
+            ));
+        }
+        // the jobs of the parent are not jobs of the subshell
+        if e.get("ownedjobs").is_some_and(|n| n != "0") {
+            return Some((
+                "entry".into(),
+                "entry:jobs".into(),
+                format!(
+                    "{:?} subshell {k}: on entry ({label}{k}) the subshell still owns {} of the parent's jobs (it may not wait for any of them)",
+                    t.kind,
+                    e["ownedjobs"]
                 ),
             ));
         }
